@@ -71,6 +71,16 @@ def cases(tier, rng):
                     f"probe ep#0 {peer}", "unbind 1 ep#0", f"probe ep#0 {peer}"]
             out.append(Case(f"accept-error-{t}-{tr}#{n}", "net", ops, ["accept-error"]))
             n += 1
+            # … and unbind issued WHILE accept() keeps failing (the shortage lasts): it returns, the endpoint is gone from the
+            # bind set and — once descriptors are back — refuses; the other endpoint of the socket is untouched
+            for pause in (30, 150):
+                ops = [f"sock 1 {t}", f"bind 1 {tr}", f"bind 1 {tr}", "rawconn 1 ep#1", f"rawhs 1 {peer}", "rawwait 1 hs",
+                       "fdhoard", "fdrelease 1", "rawconn 2 ep#0", f"pause {pause}", "unbind 1 ep#0", "binds 1", "fdrelease all",
+                       f"probe ep#0 {peer}", f"probe ep#1 {peer}"]
+                if t == "PULL":
+                    ops += ["rawmsg 1 6f6c64", "recv 1"]
+                out.append(Case(f"accept-error-unbind-during-{t}-{tr}#{n}", "net", ops, ["accept-error"]))
+                n += 1
     for _ in range(120 if tier == "quick" else 1500):
         t = rng.choice(["PULL", "PULL", "DEALER", "REP", "XPUB", "PUSH"])
         peer = netgen.PEER[t]
